@@ -3,6 +3,7 @@ package wal
 import (
 	"bufio"
 	"encoding/binary"
+	"errors"
 	"fmt"
 	"hash/crc32"
 	"io"
@@ -46,7 +47,7 @@ func (r *Reader) ReadEntry() (*Entry, error) {
 			if err == io.EOF {
 				// If we have fragments, this is unexpected EOF
 				if len(r.fragments) > 0 {
-					return nil, fmt.Errorf("unexpected EOF with %d fragments", len(r.fragments))
+					return nil, fmt.Errorf("%w with %d fragments", io.ErrUnexpectedEOF, len(r.fragments))
 				}
 				return nil, io.EOF
 			}
@@ -293,6 +294,15 @@ func ReplayWALFile(path string, handler EntryHandler) (*RecoveryStats, error) {
 		if err != nil {
 			if err == io.EOF {
 				// Reached the end of the file
+				break
+			}
+
+			// A record that stops short of its length (or an entry whose
+			// last fragments are missing) is a torn tail, the normal
+			// artefact of a crash in the middle of a write: everything
+			// before it is intact, so treat it as the end of the log
+			if errors.Is(err, io.ErrUnexpectedEOF) {
+				stats.EntriesSkipped++
 				break
 			}
 
